@@ -698,3 +698,26 @@ func TestD36_TagOptions(t *testing.T) {
 		t.Fatalf("issues %v (want one under \"name\")", errs)
 	}
 }
+
+// D37: Pick with a key the receiver does not have stored a nil field schema; executing the result panicked
+func TestD37_PickMissingKey(t *testing.T) {
+	base := z.Struct(z.Schema{"name": z.String().Required()})
+	byHand := z.Struct(z.Schema{"name": z.String().Required()})
+	for _, picked := range []*z.StructSchema{base.Pick("name", "nickname"), base.Pick(map[string]bool{"name": true, "nickname": true})} {
+		picked := picked
+		noPanic(t, "Pick of a key the schema does not have", func() {
+			var d, e struct {
+				Name     string
+				Nickname string
+			}
+			got := picked.Parse(map[string]any{"name": "ann", "nickname": "x"}, &d)
+			want := byHand.Parse(map[string]any{"name": "ann", "nickname": "x"}, &e)
+			if len(got) != len(want) || d != e {
+				t.Fatalf("picked: %v %+v, by hand: %v %+v", got, d, want, e)
+			}
+			if v := picked.Validate(&d); len(v) != 0 {
+				t.Fatalf("validate: %v", v)
+			}
+		})
+	}
+}
